@@ -846,7 +846,9 @@ def w_value(node):
     if k == "int_value":
         return [1] + w_text(node.value)
     if k == "float_value":
-        return [2] + w_text(node.value)
+        # a FloatValueNode made from a Python value may carry integer text ("0"); it prints (and re-parses) as an int
+        is_int_text = not any(c in node.value for c in ".eE")
+        return [1 if is_int_text else 2] + w_text(node.value)
     if k == "string_value":
         return [3] + w_text(node.value)
     if k == "boolean_value":
@@ -953,11 +955,20 @@ def _encode_schema(schema, all_types):
     out = w_opt(schema.description) + w_opt(root(schema.query_type)) + w_opt(root(schema.mutation_type)) \
         + w_opt(root(schema.subscription_type)) + [len(types)]
     for t in types:
-        out += w_type(t)
+        if is_std_type_name(t.name) and not CANON_DEFAULTS[0]:
+            c = _STD_CACHE.get(id(t))
+            if c is None:
+                c = _STD_CACHE[id(t)] = (t, w_type(t))
+            out += c[1]
+        else:
+            out += w_type(t)
     out.append(len(dirs))
     for d in dirs:
         out += w_directive(d)
     return out
+
+
+_STD_CACHE = {}
 
 
 # --------------------------------------------------------------------------- wire decoding (model answers)
@@ -983,3 +994,90 @@ class Reader:
 
     def done(self):
         return self.i == len(self.l)
+
+
+# --------------------------------------------------------------------------- SDL AST -> wire (definition lists)
+
+
+def _w_tref_ast(node):
+    k = node.kind
+    if k == "list_type":
+        return [1] + _w_tref_ast(node.type)
+    if k == "non_null_type":
+        return [2] + _w_tref_ast(node.type)
+    return [0] + w_text(node.name.value)
+
+
+def _desc_ast(node):
+    d = getattr(node, "description", None)
+    return w_opt(None if d is None else d.value)
+
+
+def _w_input_value_ast(node, depr):
+    return (w_text(node.name.value) + _w_tref_ast(node.type)
+            + ([0] if node.default_value is None else [1] + w_value(node.default_value))
+            + _desc_ast(node) + w_opt(depr(node)))
+
+
+def _w_inputs_ast(nodes, depr):
+    nodes = nodes or ()
+    out = [len(nodes)]
+    for n in nodes:
+        out += _w_input_value_ast(n, depr)
+    return out
+
+
+def w_defs(document):
+    """Parsed SDL document -> wire list of definitions (the model's `definition` type)."""
+    from graphql.utilities.extend_schema import get_deprecation_reason as depr, get_specified_by_url, is_one_of
+    opk = {"query": 0, "mutation": 1, "subscription": 2}
+    out = [len(document.definitions)]
+    for d in document.definitions:
+        k = d.kind
+        if k in ("schema_definition", "schema_extension"):
+            ops = d.operation_types or ()
+            out += ([0] + _desc_ast(d) if k == "schema_definition" else [1]) + [len(ops)]
+            for o in ops:
+                out += [opk[o.operation.value]] + w_text(o.type.name.value)
+        elif k == "directive_definition":
+            out += [2] + w_text(d.name.value) + _desc_ast(d) + _w_inputs_ast(d.arguments, depr) + [len(d.locations)]
+            for l in d.locations:
+                out += w_text(l.value)
+            out += [1 if d.repeatable else 0] + w_opt(depr(d))
+        elif k.endswith("_type_definition") or k.endswith("_type_extension"):
+            ext = k.endswith("_type_extension")
+            base = k.rsplit("_type_", 1)[0]
+            kind = {"scalar": 0, "object": 1, "interface": 2, "union": 3, "enum": 4, "input_object": 5}[base]
+            out += [4 if ext else 3, kind] + w_text(d.name.value) + (w_opt(None) if ext else _desc_ast(d))
+            if kind in (1, 2):
+                fs = d.fields or ()
+                out.append(len(fs))
+                for f in fs:
+                    out += (w_text(f.name.value) + _w_inputs_ast(f.arguments, depr) + _w_tref_ast(f.type)
+                            + _desc_ast(f) + w_opt(depr(f)))
+                ifs = d.interfaces or ()
+                out.append(len(ifs))
+                for i in ifs:
+                    out += w_text(i.name.value)
+            else:
+                out += [0, 0]
+            if kind == 3:
+                ms = d.types or ()
+                out.append(len(ms))
+                for m in ms:
+                    out += w_text(m.name.value)
+            else:
+                out.append(0)
+            if kind == 4:
+                vs = d.values or ()
+                out.append(len(vs))
+                for v in vs:
+                    out += w_text(v.name.value) + _desc_ast(v) + w_opt(depr(v))
+            else:
+                out.append(0)
+            out += _w_inputs_ast(d.fields, depr) if kind == 5 else [0]
+            out += w_opt(get_specified_by_url(d) if kind == 0 and not ext else None)
+            out.append(1 if kind == 5 and not ext and is_one_of(d) else 0)
+        else:
+            out.append(5)
+    return out
